@@ -504,7 +504,7 @@ pub fn run(ctx: &Ctx) -> Outcome {
     // lanes 2 and 3 need a runtime
     let rt = tokio::runtime::Builder::new_current_thread().enable_all().build().unwrap();
     let n2: u64 = if ctx.thorough { 14 * 2000 } else { 600 };
-    let n3: u64 = if ctx.thorough { 14 * 6000 } else { 4000 };
+    let n3: u64 = if ctx.thorough { 14 * 10_000 } else { 10_000 };
     rt.block_on(async {
         lane2(ctx, &mut out, n2).await;
         lane3(ctx, &mut out, n3).await;
@@ -710,6 +710,27 @@ async fn lane3(ctx: &Ctx, out: &mut Outcome, total: u64) {
             if no_empty_lists(&p) {
                 break p;
             }
+        };
+        // chunks that hold only integers beyond 2^53: half of them get a predicate whose operands sit within two of
+        // the chunk's smallest / largest value, each as an integer or a float literal at random - where exact and
+        // float comparison part ways
+        let ints: Vec<i64> = rows.iter().filter_map(|r| if let Cell::I(i) = r["value_i64"] { Some(i) } else { None }).collect();
+        let p = if !ints.is_empty() && ints.iter().all(|i| i.unsigned_abs() > (1u64 << 53)) && rng.chance(2, 3) {
+            out.count("lane3.near_tie_predicates_on_integers_beyond_2^53", 1);
+            let (mn, mx) = (*ints.iter().min().unwrap(), *ints.iter().max().unwrap());
+            let mut operand = |rng: &mut Rng| -> V {
+                let v = (if rng.chance(1, 2) { mn } else { mx }).saturating_add(rng.range(-2, 2));
+                if rng.chance(1, 2) { V::Int64(v) } else { V::Float64(v as f64) }
+            };
+            if rng.chance(3, 5) {
+                let (a, b) = (operand(&mut rng), operand(&mut rng));
+                P::Between("value_i64".into(), a, b)
+            } else {
+                let n = 2 + rng.usize(2);
+                P::In("value_i64".into(), (0..n).map(|_| operand(&mut rng)).collect())
+            }
+        } else {
+            p
         };
         let where_sql = if idx % 2 == 0 { sql_of(&p) } else { sql_variant(&p, &mut rng) };
         if where_sql.contains("NOT BETWEEN") {
